@@ -30,6 +30,8 @@ ASSUMPTIONS = [
     'format / mimetype / type / version',
     'values where Python int() and the grammar -?[0-9]+ disagree (1_0) are '
     'not generated',
+    'an integer with more digits than this interpreter converts (CPython: '
+    '4300) is expected to stay the text it is',
     'the original records come from the same reader on the unextended file '
     '(itself checked against the reference in C01/C03)',
 ]
@@ -61,6 +63,10 @@ def generate(rng, tier, cls):
             if rng.chance(0.03):
                 # very long values: header lines beyond any line buffer
                 v = 'x' * rng.choice([200, 4090, 8100, 8200, 9000, 70000])
+            elif rng.chance(0.02):
+                # integers longer than the interpreter converts
+                v = rng.choice(['9', '1', '-7']) * rng.choice([4300, 4301,
+                                                               5000])
             elif rng.chance(0.06):
                 # ... or just beyond one read-ahead block
                 v = 'y' * rng.randint(60, 330)
